@@ -217,8 +217,11 @@ def upsert_routes(app, routes, routes_path, route, primary_key):
         return
 
     with open(routes_path, "a") as f:
+        # the existing file need not end in a newline (`upsert_routes` itself writes none):
+        # start on a fresh line so the first appended decorator is not glued to the last statement
         f.write(
-            "\n\n".join(
+            "\n\n"
+            + "\n\n".join(
                 map(
                     to_code,
                     map(
